@@ -24,9 +24,14 @@ Definition neps : F := fopp o eps.
 
 (* ---- 2-D part ---- *)
 Definition pt2 : Type := (F * F)%type.
-(* ORIENT_2D(a,b,c) = (a0-c0)*(b1-c1)-(a1-c1)*(b0-c0) *)
+(* orient_2d(a,b,c): l = (a0-c0)*(b1-c1), r = (a1-c1)*(b0-c0), o = l-r; a value with |o| <= 1e-10*(|l|+|r|) is an exact
+   zero (fix: commit in /repo: collinear points stay collinear after a rigid motion) *)
+Definition c1e10 : F := fdiv o (fofZ o 1) (fofZ o (10 ^ 10)).
 Definition orient2 (a b c : pt2) : F :=
-  (fst a -! fst c) *! (snd b -! snd c) -! (snd a -! snd c) *! (fst b -! fst c).
+  let l := (fst a -! fst c) *! (snd b -! snd c) in
+  let r := (snd a -! snd c) *! (fst b -! fst c) in
+  let d := l -! r in
+  if le (fabs o d) (c1e10 *! (fadd o (fabs o l) (fabs o r))) then Z0 else d.
 
 Definition test_vertex (P1 Q1 R1 P2 Q2 R2 : pt2) : bool :=
   if ge (orient2 R2 P2 Q1) Z0 then
@@ -128,19 +133,30 @@ Definition tri_tri_3d (n1 p1 q1 r1 p2 q2 r2 : vec) (dp2 dq2 dr2 : F) : bool :=
       else if lt dr2 Z0 then check_min_max p1 r1 q1 r2 p2 q2
       else coplanar3 p1 q1 r1 p2 q2 r2 n1.
 
-(* the six signed distances and the two early rejections *)
-Definition plane_dists (p1 q1 r1 p2 q2 r2 : vec) : F * F * F :=
+(* SNAP_COPLANAR(d,v,N): if (d*d <= 1e-20*DOT(N,N)*DOT(v,v)) d = 0.0;  - a vertex within a relative 1e-10 of the other
+   triangle's plane counts as lying in it (fix: commit in /repo) *)
+Definition c1e20 : F := fdiv o (fofZ o 1) (fofZ o (10 ^ 20)).
+Definition snap (d : F) (v n : vec) : F :=
+  if le (d *! d) (c1e20 *! vdot n n *! vdot v v) then Z0 else d.
+Definition sdist (x base n : vec) : F := let v := vsub x base in snap (vdot v n) v n.
+
+(* the signed distances (before snapping) of the vertices of T1 to the plane of T2, and of T2 to the plane of T1 *)
+Definition plane_dists_raw (p1 q1 r1 p2 q2 r2 : vec) : F * F * F :=
   let n2 := vcross (vsub p2 r2) (vsub q2 r2) in
   (vdot (vsub p1 r2) n2, vdot (vsub q1 r2) n2, vdot (vsub r1 r2) n2).
+(* the six signed distances as the code uses them and the two early rejections *)
+Definition plane_dists (p1 q1 r1 p2 q2 r2 : vec) : F * F * F :=
+  let n2 := vcross (vsub p2 r2) (vsub q2 r2) in
+  (sdist p1 r2 n2, sdist q1 r2 n2, sdist r1 r2 n2).
 
 Definition tri_tri_overlap_3d (p1 q1 r1 p2 q2 r2 : vec) : bool :=
   let '(dp1, dq1, dr1) := plane_dists p1 q1 r1 p2 q2 r2 in
   if gt (dp1 *! dq1) Z0 && gt (dp1 *! dr1) Z0 then false
   else
     let n1 := vcross (vsub q1 p1) (vsub r1 p1) in
-    let dp2 := vdot (vsub p2 r1) n1 in
-    let dq2 := vdot (vsub q2 r1) n1 in
-    let dr2 := vdot (vsub r2 r1) n1 in
+    let dp2 := sdist p2 r1 n1 in
+    let dq2 := sdist q2 r1 n1 in
+    let dr2 := sdist r2 r1 n1 in
     if gt (dp2 *! dq2) Z0 && gt (dp2 *! dr2) Z0 then false
     else
       if gt dp1 eps then
